@@ -272,11 +272,26 @@ func (i *Interp) conv(tdst, tsrc types.Type, x value) value {
 					return mkStr(ts)
 				}
 				var buf []byte
+				allConst := true
 				for _, e := range x {
-					t := e.(*smt.Term)
-					if !t.IsConst() {
+					if t := e.(*smt.Term); !t.IsConst() {
+						allConst = false
+						break
+					}
+				}
+				if !allConst {
+					f := i.lookupFunc("unicode/utf8", "AppendRune")
+					if f == nil {
 						return poison{"symbolic []rune -> string"}
 					}
+					var acc value = []value{}
+					for _, e := range x {
+						acc = i.callSSA(nil, f, []value{acc, e}, nil)
+					}
+					return i.conv(types.Typ[types.String], types.NewSlice(types.Typ[types.Uint8]), acc)
+				}
+				for _, e := range x {
+					t := e.(*smt.Term)
 					buf = utf8.AppendRune(buf, rune(int32(t.C)))
 				}
 				return Str{s: string(buf)}
@@ -334,24 +349,41 @@ func (i *Interp) conv(tdst, tsrc types.Type, x value) value {
 	panic(fmt.Sprintf("conv: %v -> %v (%T)", tsrc, tdst, x))
 }
 
-// symRunes decodes a symbolic string into runes if all bytes are forced ASCII
-// on this path; otherwise unsupported.
+// symRunes decodes a (partly) symbolic string into runes by interpreting
+// unicode/utf8.DecodeRuneInString on it (forks on the byte classes).
 func (i *Interp) symRunes(s Str) value {
-	c := i.ctx
 	r := make([]value, 0, s.Len())
-	for k := 0; k < s.Len(); k++ {
-		b := s.at(c, k)
-		if !b.IsConst() {
-			isASCII := c.ULT(b, c.Const(bv8, 0x80))
-			if !i.decide(isASCII, "rune-ascii") {
-				i.abort(stInconclusive, "non-ASCII symbolic byte in string->[]rune")
-			}
-		} else if b.C >= 0x80 {
-			return poison{"non-ASCII in symbolic string -> []rune"}
-		}
-		r = append(r, c.ZExt(b, 32))
+	pos := 0
+	for pos < s.Len() {
+		ru, size := i.decodeRuneAt(s, pos)
+		r = append(r, ru)
+		pos += size
 	}
 	return r
+}
+
+// decodeRuneAt returns the rune starting at byte pos and its width.
+func (i *Interp) decodeRuneAt(s Str, pos int) (*smt.Term, int) {
+	c := i.ctx
+	b := s.at(c, pos)
+	if b.IsConst() && b.C < 0x80 {
+		return c.Const(smt.BV(32), b.C), 1
+	}
+	end := pos + 4
+	if end > s.Len() {
+		end = s.Len()
+	}
+	sub := i.strSlice(s, pos, end)
+	if cs, ok := sub.Concrete(); ok {
+		ru, w := decodeRune(cs)
+		return c.Const(smt.BV(32), uint64(uint32(ru))), w
+	}
+	f := i.lookupFunc("unicode/utf8", "DecodeRuneInString")
+	if f == nil {
+		i.abort(stInconclusive, "unicode/utf8 not loaded for symbolic rune decoding")
+	}
+	res := i.callSSA(nil, f, []value{sub}, nil).(tuple)
+	return res[0].(*smt.Term), int(i.asInt(res[1], true, "rune-width"))
 }
 
 func (i *Interp) strConcat(x, y Str) Str {
